@@ -335,6 +335,9 @@ impl Machine {
                     }
                 }
             }
+            // the `*_salted` forms with `salted = false`: same result as the plain forms, through the other code path
+            ["add_env_unsalted", e, a] => res(self.env(e)?.add_assertion_envelope_salted(self.env(a)?, false)),
+            ["add_many_unsalted", e, xs] => { let e = self.env(e)?; let xs = self.envs(xs)?; if xs.iter().all(|x| x.is_subject_assertion() || x.is_subject_obscured()) { Val::Env(e.add_assertions_salted(&xs, false)) } else { Val::Err("InvalidFormat".into()) } }
             ["add_type", e, t] => Val::Env(self.env(e)?.add_type(self.env(t)?)),
             ["add_attachment", e, payload, v, c] => {
                 let v = String::from_utf8(hex::decode(v).ok()?).ok()?; let c = opt_str(c)?;
